@@ -4,8 +4,8 @@ from harness.oracles import all as ALL
 
 ID = 'C04'
 UNITS = ['match_events', 'event_metrics', 'note_matching', 'transcription_scores', 'melody_metrics', 'multipitch_metrics', 'multipitch_resample', 'key_score', 'pattern_scores', 'alignment_scores', 'tempo_detection', 'beat_q', 'beat_ig']
-TRANSLATORS = []
-NOT_COVERED = 'Partial: Goto and continuity are their own (procedural) definitions, tied by correspondence only; the Gaussian of Cemgil and the entropy of information gain are outside the exact model; default parameter values are not yet tied by the translator.'
+TRANSLATORS = ['defaults', 'tables']
+NOT_COVERED = 'Partial: Goto and continuity are their own (procedural) definitions, tied by correspondence only; the Gaussian of Cemgil and the entropy of information gain are outside the exact model; default values are tied by the translator (defaults_as_documented).'
 ASSUMPTIONS = ['exact-arithmetic lattices for the correspondence (DESIGN.md section 2.1); NumPy/SciPy primitives as modelled per module']
 
 oracle_search = propgen.budgeted([ALL.for_property(ID)])
@@ -16,8 +16,24 @@ def oracle_at(unit, case, impl):
 
 
 def diagnose(b):
+    import importlib
+    import inspect
     import random
-    return ALL.for_property(ID)(random.Random(core.seed() + 17), 300)[:2]
+    out = []
+    res, log = core.coq_eval(['ME.Model.DefaultsSpec', 'ME.Gen.Defaults'], ['first_wrong_default signature_defaults',
+                                                                             'first_inconsistent_docstring signature_defaults docstring_defaults'], scope='string_scope')
+    if res and res[0].startswith('Some'):
+        import re
+        m = re.findall(r'"([^"]*)"', res[0])
+        if len(m) == 2:
+            mod, fn = m[0].split('.', 1)
+            try:
+                d = inspect.signature(getattr(importlib.import_module('mir_eval.' + mod), fn)).parameters[m[1]].default
+            except Exception as e:  # noqa
+                d = 'unavailable: %s' % type(e).__name__
+            out.append({'function': 'mir_eval.' + m[0], 'relation': 'the default value of a parameter is the documented one', 'input': {'parameter': m[1]},
+                        'observed': repr(d), 'why': 'Model/DefaultsSpec.v documents a different default; calling without the keyword now uses %r' % (d,)})
+    return out + ALL.for_property(ID)(random.Random(core.seed() + 17), 300)[:2]
 
 
 def known_match(f, known):
@@ -29,6 +45,6 @@ REFUTED = []
 MANIFEST = {
     'text': 'Refinement theorems: the algorithmic model equals a declarative definition: hits = size of a maximum matching of the stated tolerance predicate (events, notes), the five melody measures = sum-over-frames formulas, multipitch accounting and nearest-frame resampling, key table by kernel computation, tempo / alignment / pattern scores written out on their definitions.',
     'design_ref': 'DESIGN.md section 6, C04',
-    'level_note': 'Trusted: Coq kernel + vm_compute; correspondence harness per modelled metric; NumPy/SciPy primitives as modelled. ' + 'Partial: Goto and continuity are their own (procedural) definitions, tied by correspondence only; the Gaussian of Cemgil and the entropy of information gain are outside the exact model; default parameter values are not yet tied by the translator.',
+    'level_note': 'Trusted: Coq kernel + vm_compute; correspondence harness per modelled metric; NumPy/SciPy primitives as modelled. ' + 'Partial: Goto and continuity are their own (procedural) definitions, tied by correspondence only; the Gaussian of Cemgil and the entropy of information gain are outside the exact model; default values are tied by the translator (defaults_as_documented).',
     'technique': 'Coq proof on Gallina models of the task metrics (maximum-matching size lemmas, exact rational arithmetic); model/code correspondence by vm_compute',
 }
